@@ -217,3 +217,23 @@ def swap_args(modname, q, callee, i, j, name=None, nth=0):
                     k += 1
         return False
     return Canary(name or 'swap args %d,%d of %s in %s' % (i, j, callee, q), modname, mutate)
+
+
+def drop_kwarg(modname, q, callee, kwname, name=None, nth=0):
+    """remove keyword argument ``kwname`` from the nth call of ``callee`` (function or method name) inside function q"""
+    def mutate(tree):
+        f = _where(tree, q)
+        if f is None:
+            return False
+        k = 0
+        for n in _walk(f):
+            if isinstance(n, ast.Call):
+                fn = n.func
+                nm = fn.id if isinstance(fn, ast.Name) else (fn.attr if isinstance(fn, ast.Attribute) else None)
+                if nm == callee and any(kw.arg == kwname for kw in n.keywords):
+                    if k == nth:
+                        n.keywords = [kw for kw in n.keywords if kw.arg != kwname]
+                        return True
+                    k += 1
+        return False
+    return Canary(name or 'drop %s= of %s in %s' % (kwname, callee, q), modname, mutate)
